@@ -462,6 +462,21 @@ func C11(r *vf.Run) {
 				if n%4096 == 0 || n == total {
 					k = 512
 				}
+				if n%9000 == 4500 {
+					// the host overlays a few segments of the console's own windows with its device (a patch
+					// area, a watch region) and later re-creates the emulator: CreateEmulator builds the
+					// LoROM map, whatever was attached in between
+					for j := 0; j < 6; j++ {
+						a := addrs[g.Intn(len(addrs))] &^ 15
+						_ = h.s.Bus.Attach(&fakeMem{id: -n}, "overlay", a, a|15)
+					}
+					if err := h.s.CreateEmulator(); err != nil {
+						r.Fail("create-emulator", "second CreateEmulator: "+err.Error(), nil)
+						break
+					}
+					cells["long:emulator-recreated-after-overlay"]++
+					k = 512
+				}
 				if !verify(n, k) {
 					break
 				}
